@@ -35,6 +35,8 @@ Definition is_panic {A} (o : outcome A) : bool := match o with Panic => true | _
 
 Definition len {A} (l : list A) : N := N.of_nat (List.length l).
 
+Definition opt_list {A} (o : option A) : list A := match o with Some x => [x] | None => [] end.
+
 (* ------------------------------------------------------------------ Rust primitives *)
 (* &v[..n] *)
 Definition slice_to {A} (l : list A) (n : N) : outcome (list A) :=
@@ -280,6 +282,40 @@ Definition port_format (r : port_range) : string :=
 Definition wf_port_range (r : port_range) : bool :=
   match r with Single p => p <? U16 | Range a b => (a <? b) && (b <? U16) end.
 
+(* ------------------------------------------------------------------ consumers of a PortRange (helpers.rs) *)
+(* the ports recorded for the existing services: metrics port, node port (both optional), RPC port *)
+Definition all_ports (nodes : list (option N * option N * N)) : list N :=
+  flat_map (fun t => match t with (m, n, r) => opt_list m ++ opt_list n ++ [r] end) nodes.
+
+(* `start..=end`: inclusive, empty when end < start, and it does not overflow at 65535 *)
+Fixpoint range_from (n : nat) (a : N) : list N :=
+  match n with O => [] | S k => a :: range_from k (a + 1) end.
+Definition range_incl (a b : N) : list N :=
+  if b <? a then [] else range_from (N.to_nat (b - a) + 1) a.
+
+(* check_port_availability: Err as soon as a port of the request is recorded for another service *)
+Definition check_port_availability (r : port_range) (nodes : list (option N * option N * N)) : outcome unit :=
+  let used := all_ports nodes in
+  match r with
+  | Single p => if existsb (N.eqb p) used then Err 1 else Ok tt
+  | Range a b => if existsb (fun i => existsb (N.eqb i) used) (range_incl a b) then Err 1 else Ok tt
+  end.
+
+(* NOT the code: the same test through the exclusive range `start..end + 1` computed in u16 -- kept only for
+   `port_availability_exclusive_refuted`: panics (debug) or wraps to an empty range (release) when end = 65535 *)
+Definition check_port_availability_exclusive (m : arith_mode) (r : port_range) (nodes : list (option N * option N * N))
+  : outcome unit :=
+  let used := all_ports nodes in
+  match r with
+  | Single p => if existsb (N.eqb p) used then Err 1 else Ok tt
+  | Range a b =>
+      bind (add_w m U16 b 1) (fun e =>
+      if existsb (fun p => (a <=? p) && (p <? e)) used then Err 1 else Ok tt)
+  end.
+
+Definition start_port (r : option port_range) : option N :=
+  match r with Some (Single p) => Some p | Some (Range a _) => Some a | None => None end.
+
 (* ------------------------------------------------------------------ increment_port_option (helpers.rs) *)
 Definition increment_port_unfixed (m : arith_mode) (p : option N) : outcome (option N) :=
   match p with
@@ -313,8 +349,6 @@ Definition is_tcp p := match p with Tcp _ => true | _ => false end.
 Definition is_quic p := match p with QuicV1 => true | _ => false end.
 Definition is_ws p := match p with Ws _ => true | _ => false end.
 Definition is_p2p p := match p with P2p _ => true | _ => false end.
-
-Definition opt_list {A} (o : option A) : list A := match o with Some x => [x] | None => [] end.
 
 Definition craft (addr : list proto) (ignore_peer_id : bool) : option (list proto) :=
   let peer := find is_p2p addr in
@@ -403,6 +437,15 @@ Definition header_from_record (decode : list N -> option N) (value : list N) : o
 (* try_deserialize_record: the payload after the header *)
 Definition record_payload (value : list N) : outcome (list N) :=
   if HEADER_SIZE <? len value then slice_from value HEADER_SIZE else Err 2.
+
+(* try_deserialize_record::<T>: length test, then the slice after the header, then rmp-serde (`decode`, oracle) *)
+Definition try_deserialize_record {A} (decode : list N -> option A) (value : list N) : outcome A :=
+  bind (record_payload value) (fun b => match decode b with Some v => Ok v | None => Err 2 end).
+
+(* NOT the code: slicing before the length test -- kept only for `payload_slice_first_refuted` *)
+Definition try_deserialize_record_slice_first {A} (decode : list N -> option A) (value : list N) : outcome A :=
+  bind (slice_from value HEADER_SIZE) (fun b =>
+  match b with [] => Err 2 | _ => match decode b with Some v => Ok v | None => Err 2 end end).
 
 (* ------------------------------------------------------------------ agreement predicates (generated case files) *)
 Definition outcome_eqb {A} (eqb : A -> A -> bool) (a b : outcome A) : bool :=
@@ -508,6 +551,14 @@ Definition agree_incr (v : variant) (p : option N) (kind : N) (r : option N) : b
   | Err _ => kind =? 1
   | Panic => kind =? 2
   end.
+
+(* avail: the implementation returned Ok(()); start: get_start_port_if_applicable *)
+Definition agree_port_avail (r : port_range) (nodes : list (option N * option N * N)) (kind : N) (start : option N) : bool :=
+  (kind_of (check_port_availability r nodes) =? kind) && option_eqb N.eqb (start_port (Some r)) start.
+
+(* decode_ok: what rmp-serde said about the bytes after the header (None: there are none) *)
+Definition agree_payload (value : list N) (decode_ok : option bool) (kind : N) : bool :=
+  kind_of (try_deserialize_record (fun _ => match decode_ok with Some true => Some tt | _ => None end) value) =? kind.
 
 Definition agree_amount (s : string) (code v : N) : bool :=
   match amount_from_str s with
